@@ -80,7 +80,9 @@ def run_one(s):
                     smp = tp.samplers.AdaptiveThresholdRejectionSampler(dom, resample_ratio=0.5, n_points=n, filter_fn=flt)
                 else:
                     smp = tp.samplers.AdaptiveRandomRejectionSampler(dom, n_points=n, filter_fn=flt)
-                par2 = U.mk_params(names, rows_for(names, k, tid + ci + 5))
+                rows2 = rows_for(names, k, tid + ci + 5)
+                rec["prm2"] = [{n: v * U.F for n, v in r.items()} for r in rows2]       # (the rows of the call in between)
+                par2 = U.mk_params(names, rows2)
                 first = smp.sample_points(params=par)
                 loss = torch.arange(len(first), dtype=torch.float32) % 3
                 second = smp.sample_points(unreduced_loss=loss + 1.0, params=par2)
